@@ -6,6 +6,9 @@ import vlib, world
 ALL_KINDS = ["NewGrp", "Sub", "Leave", "SetSelf", "SetOther", "DelSub", "Pub", "Note", "Unload"]
 
 
+SESS_USER = {}
+
+
 def signature(recs, k, mon):
     """Signature fields that identify the failing call site / history shape (used for known-finding matching)."""
     rec, pre = recs[k - 1], recs[k - 2]
@@ -21,6 +24,20 @@ def signature(recs, k, mon):
     if t in pre["st"]["topics"] and t in pre["st"]["msgs"]:
         mx = max([m["seq"] for m in pre["st"]["msgs"][t]] or [0])
         out["rowAhead"] = pre["st"]["topics"][t]["seq"] > mx
+    # does the live topic hold other permissions for the acting user than the store does (pre-step)?
+    try:
+        u = a.get("obo") or pre["st"]["sess"] and None
+        su = None
+        for rr in recs[k - 1::-1]:
+            if rr["i"] == 0:
+                break
+        actor = a.get("obo") or SESS_USER.get(a.get("s"))
+        c = pre["st"]["cache"].get(t, {})
+        if actor and c.get("loaded") and actor in c["per"] and c["per"][actor]["in"]:
+            row = pre["st"]["subs"][t][actor]
+            out["permsDiffer"] = (c["per"][actor]["want"] != row["want"]) or (c["per"][actor]["given"] != row["given"]) or row["st"] != "live"
+    except Exception:
+        pass
     out["fault"] = bool(rec.get("faultFired"))
     if rec.get("faultFired") and pre["act"].get("a") == "Fault":
         nth = pre["act"].get("nth", 1)
@@ -85,6 +102,8 @@ def run_topic_check(ctx, prop, *, kinds, want, given, maxseq, u1_quick, u1_thoro
     behs += sims
     if extra_behaviours:
         behs += extra_behaviours(users, sess, topics)
+    SESS_USER.clear()
+    SESS_USER.update(sess)
     bj = world.behaviours_json(behs, users, sess, topics, maxsubs=maxsubs, levels=levels)
     trace, wall = world.replay(ctx, bj)
     r2, recs, fails, divs = world.check_traces(ctx, trace, cb, props, timeout=1500)
